@@ -1233,6 +1233,20 @@ int main(int argc, char **argv)
 			tok = strtok(hdr, " \n");		/* "scenario" */
 			tok = strtok(NULL, " \n");		/* tag */
 			while ((tok = strtok(NULL, " \n")) && ac < 16) av[ac++] = tok;
+			if (ac >= 2 && !strcmp(av[0], "selftest")) {
+				/* positive controls of the instrumentation: the run must be classified as what is provoked here */
+				char *volatile p = malloc(23);
+				out("selftest %s", av[1]);
+				if (!strcmp(av[1], "leak")) p = NULL;			/* the only pointer to the block is lost */
+				else if (!strcmp(av[1], "uaf")) { free(p); out("%d", p[3]); }
+				else if (!strcmp(av[1], "overflow")) { out("%d", p[23]); free(p); }
+				else if (!strcmp(av[1], "unmapped")) {	/* what a node of a destroyed pool is: memory given back with munmap */
+					char *volatile q = __real_mmap(NULL, 65536, PROT_READ | PROT_WRITE, MAP_PRIVATE | MAP_ANONYMOUS, -1, 0);
+					free(p); q[5] = 1; munmap(q, 65536); out("%d", q[5]);
+				} else free(p);
+				out("fds-at-end %+d", count_fds() - fd_base);
+				exit(0);
+			}
 			if (ac == 0 || setup(ac, av)) { out("setup-failed"); _exit(3); }
 			for (i = 0; i < n; ++i)
 				run_line(lines[i]);
